@@ -13,7 +13,9 @@ open Eav
 def sameRows (a b : List (List Nat × Nat)) : Bool := a.all b.contains && b.all a.contains && a.length == b.length
 theorem reserved_eq : sameRows Gen.reservedTable Eav.reservedTable = true := by decide
 theorem example_eq : sameRows Gen.exampleTable Eav.exampleTable = true := by decide
-theorem exampleLabel_eq : Gen.exampleLabel = (Eav.exampleLabel, 8) := by decide
-theorem lenFilter_eq : Gen.specialLenFilters = [(4, 9, 6, 8), (4, 9, 6, 8)] := by decide
+/-- the `strncasecmp ("example", label, 8)` test and the two length filters, where the source spells them that way
+(`([], 0)` / no entry otherwise: they are then covered by the correspondence alone) -/
+theorem exampleLabel_eq : Gen.exampleLabel = (Eav.exampleLabel, 8) ∨ Gen.exampleLabel = ([], 0) := by decide
+theorem lenFilter_eq : Gen.specialLenFilters.all (· == (4, 9, 6, 8)) = true := by decide
 
 end Eav.Props.GenTie
